@@ -47,6 +47,15 @@ mod connection;
 mod protocol_set;
 mod transport_service;
 
+/// Verification hooks: re-exports of items that are `pub` inside the private sub-modules.
+#[cfg(feature = "verif")]
+pub mod verif_export {
+    pub use super::{
+        connection::{ConnectionHandle, Permit},
+        protocol_set::{InnerTransportEvent, ProtocolCommand, ProtocolSet},
+    };
+}
+
 /// Substream direction.
 #[derive(Debug, Copy, Clone, Hash, PartialEq, Eq)]
 pub enum Direction {
